@@ -95,6 +95,10 @@ namespace {
         void writeSuppr(const SuppressionList &supprs) const {
             for (const auto& suppr : supprs.getSuppressions())
             {
+#ifdef DANMAR_CPPCHECK_VERIF
+                if (suppr.isInline || suppr.checked)
+                    VERIF_EVT("SendSuppr", verif::kv("key", verif::supprKey(suppr)) + verif::kb("inl", suppr.isInline) + verif::kb("checked", suppr.checked) + verif::kb("matched", suppr.matched));
+#endif
                 if (suppr.isInline)
                     writeToPipe(REPORT_SUPPR_INLINE, suppressionToString(suppr));
                 else if (suppr.checked)
